@@ -172,6 +172,21 @@ pub fn c18_case(rng: &mut Rng, i: u64, st: &mut Stats) -> CaseOutcome {
         cfg.modes[0].pats = directed_patterns(rng);
         // keep transitions consistent (sorted, any token types are fine)
     }
+    // a token type that carries a lookahead may be shared with the neighbouring pattern (the picture
+    // must still show one cluster per compiled lookahead)
+    if rng.chance(1, 5) {
+        for m in cfg.modes.iter_mut() {
+            if let Some(j) = (0..m.pats.len()).find(|j| m.pats[*j].la.is_some()) {
+                if j + 1 < m.pats.len() {
+                    m.pats[j + 1].tt = m.pats[j].tt;
+                    if rng.chance(1, 2) {
+                        m.pats[j + 1].la = m.pats[j].la.clone();
+                    }
+                    st.count("modes_with_a_lookahead_token_type_shared_by_two_patterns");
+                }
+            }
+        }
+    }
     if !cfg.all_res().iter().all(|r| matches!(r, Re::Raw(_)) || print_parse_roundtrip_ok(r)) {
         return CaseOutcome::Skipped;
     }
@@ -435,6 +450,7 @@ pub fn c18(tier: Tier) -> i32 {
     .floor("exports_with_dots_in_prefix_or_mode_name", 500)
     .floor("files_with_escaped_labels", 500)
     .floor("scanners_with_backslash_quote_patterns", 100)
+    .floor("modes_with_a_lookahead_token_type_shared_by_two_patterns", 100)
     .floor("scanners_with_names_needing_escapes", 300)
     .floor("fault_missing_folder_error_returned", 20)
     .floor("fault_folder_is_a_file_error_returned", 20)
